@@ -16,6 +16,8 @@ def run_item(item):
     res = new_result()
     I = interp()
     I.lazy = True
+    I.no_merge = True          # binary64 mode: one small query per syntactic path (decided by cvc5) instead of one large merged query
+    I.side_raises = False
     p, n, N = z3.BitVec("p", BW), z3.BitVec("n", BW), z3.BitVec("N", BW)
     cons = [p >= 0, n >= 0, p <= N, n <= N, N >= item.get("nmin", 1), N <= NMAXV, p + n <= N]
     obj = Sequence.__new__(Sequence)
